@@ -70,22 +70,39 @@ theorem insert_filter (r : Rec) (l : LogSeq) (t : Nat) (h : SortedT l) :
       omega
     · rfl
 
-/-- C05/1.  In the diverged branch the merged patch is a permutation of the two
-suffixes: nothing is lost, nothing else is added. -/
+/-- C05/1.  In the diverged branch the merged patch is a permutation of the local records
+the remote does not have yet, followed by the remote records: nothing else is added. -/
 theorem merged_is_permutation (l r m : LogSeq) (h : mergePatches l r = .pushRemote m) :
-    m.Perm (l ++ r) := by
+    m.Perm (l.filter (notIn r) ++ r) := by
   unfold mergePatches at h
   split at h
   · cases h
   · cases h; exact sort_perm _
 
+/-- no committed event is lost: the commit of every record of either side is in the merge -/
 theorem no_event_lost (l r m : LogSeq) (h : mergePatches l r = .pushRemote m) (x : Rec)
-    (hx : x ∈ l ∨ x ∈ r) : x ∈ m :=
-  (merged_is_permutation l r m h).mem_iff.mpr (List.mem_append.mpr hx)
+    (hx : x ∈ l ∨ x ∈ r) : x.commit ∈ commits m := by
+  have hp := merged_is_permutation l r m h
+  have hm : ∀ y, y ∈ l.filter (notIn r) ++ r → y.commit ∈ commits m := by
+    intro y hy
+    exact List.mem_map_of_mem (hp.mem_iff.mpr hy)
+  rcases hx with hx | hx
+  · by_cases hin : x.commit ∈ commits r
+    · obtain ⟨y, hy, e⟩ := List.mem_map.mp hin
+      rw [← e]; exact hm y (List.mem_append_right _ hy)
+    · apply hm x
+      apply List.mem_append_left
+      rw [List.mem_filter]
+      refine ⟨hx, ?_⟩
+      simp [notIn, hin]
+  · exact hm x (List.mem_append_right _ hx)
 
 theorem nothing_added (l r m : LogSeq) (h : mergePatches l r = .pushRemote m) (x : Rec)
-    (hx : x ∈ m) : x ∈ l ∨ x ∈ r :=
-  List.mem_append.mp ((merged_is_permutation l r m h).mem_iff.mp hx)
+    (hx : x ∈ m) : x ∈ l ∨ x ∈ r := by
+  have := (merged_is_permutation l r m h).mem_iff.mp hx
+  rcases List.mem_append.mp this with h1 | h1
+  · exact Or.inl (List.mem_filter.mp h1).1
+  · exact Or.inr h1
 
 /-- C05/2.  The merged patch is in timestamp order. -/
 theorem merged_in_timestamp_order (l r m : LogSeq) (h : mergePatches l r = .pushRemote m) :
@@ -96,14 +113,14 @@ theorem merged_in_timestamp_order (l r m : LogSeq) (h : mergePatches l r = .push
   · cases h; exact sort_sorted _
 
 /-- C05/3.  Ties keep their original relative order (local before remote, and each
-side's own order): the events of any given timestamp appear exactly as in `l ++ r`. -/
+side's own order): the events of any given timestamp appear exactly as in the input. -/
 theorem merged_is_stable (l r m : LogSeq) (h : mergePatches l r = .pushRemote m) (t : Nat) :
-    m.filter (·.time = t) = (l ++ r).filter (·.time = t) := by
+    m.filter (·.time = t) = (l.filter (notIn r) ++ r).filter (·.time = t) := by
   unfold mergePatches at h
   split at h
   · cases h
   · cases h
-    generalize l ++ r = xs
+    generalize l.filter (notIn r) ++ r = xs
     induction xs with
     | nil => rfl
     | cons x xs ih =>
@@ -122,25 +139,44 @@ theorem subset_takes_remote (l r : LogSeq)
     intro c hc; simpa using h c hc
   rw [if_pos this]
 
-/-- C05/5 (partial).  With no byte-identical event on both sides and none repeated on one
-side, every commit occurs exactly once in the merged patch. -/
-theorem exactly_once_partial (l r m : LogSeq) (h : mergePatches l r = .pushRemote m)
-    (hn : (commits (l ++ r)).Nodup) : (commits m).Nodup := by
+theorem commits_filter_sublist (l r : LogSeq) : (commits (l.filter (notIn r))).Sublist (commits l) :=
+  List.Sublist.map _ (List.filter_sublist)
+
+/-- C05/5.  Exactly once: when no commit is repeated WITHIN either side, every commit occurs
+exactly once in the merged patch — also when the two sides share events (an event both sides
+hold, or the same event made independently on both). -/
+theorem exactly_once (l r m : LogSeq) (h : mergePatches l r = .pushRemote m)
+    (hl : (commits l).Nodup) (hr : (commits r).Nodup) : (commits m).Nodup := by
   have hp := merged_is_permutation l r m h
-  have hp2 : (commits m).Perm (commits (l ++ r)) := List.Perm.map (fun x : Rec => x.commit) hp
-  exact hp2.nodup_iff.mpr hn
+  have hp2 : (commits m).Perm (commits (l.filter (notIn r) ++ r)) :=
+    List.Perm.map (fun x : Rec => x.commit) hp
+  apply hp2.nodup_iff.mpr
+  have : commits (l.filter (notIn r) ++ r) = commits (l.filter (notIn r)) ++ commits r := by
+    simp [commits]
+  rw [this, List.nodup_append]
+  refine ⟨(commits_filter_sublist l r).nodup hl, hr, ?_⟩
+  intro a ha b hb e
+  subst e
+  obtain ⟨y, hy, e⟩ := List.mem_map.mp ha
+  have := (List.mem_filter.mp hy).2
+  simp only [notIn, Bool.not_eq_true', List.contains_eq_mem, decide_eq_false_iff_not] at this
+  rw [e] at this
+  exact this hb
 
 private def a : Rec := { time := 5, commit := H.leaf [1], bytes := [1] }
 private def b : Rec := { time := 6, commit := H.leaf [2], bytes := [2] }
 private def d1 : Rec := { time := 7, commit := H.leaf [9], bytes := [9] }
 private def d2 : Rec := { time := 8, commit := H.leaf [9], bytes := [9] }
 
-/-- Witness (KNOWN FINDING C05/identical-events-duplicated): the same event made
-independently on both sides (e.g. both delete the same secret) is kept twice when the
-local side also has an event the remote lacks; the full "exactly once" statement is false
-of the code. -/
-theorem identical_events_duplicated :
-    mergePatches [a, d1] [b, d2] = .pushRemote [a, b, d1, d2] := by decide
+/-- The same event made independently on both sides (e.g. both delete the same secret) is
+kept once (the remote's record); before the repair it was kept twice. -/
+theorem identical_events_merged_once :
+    mergePatches [a, d1] [b, d2] = .pushRemote [a, b, d2] := by decide
+
+/-- An event both sides hold after the ancestor (the ancestor moved before it because an
+older event of a third device was merged in front of it) is not added again. -/
+theorem shared_event_not_added_again :
+    mergePatches [b, d1] [a, b] = .pushRemote [a, b, d1] := by decide
 
 example : mergePatches [a] [b] = .pushRemote [a, b] := by decide
 example : mergePatches [a] [a, b] = .rewindLocal [a, b] := by decide
